@@ -39,7 +39,14 @@ FOpt == IFn("opts", <<Param("e", TO2), Param("acc", T8)>>, <<T8>>,
                                                   SExpr(AssertE(JetE("eq_1", <<JetE("and_1", <<V("h"), V("l")>>), Dec(0)>>))),
                                                   SLet(PTup(<<PIgn, PId("s")>>), TTup(<<TBool, T8>>), JetE("increment_8", <<V("acc")>>))>>,
                                                 V("s")))>>)))
-Defs == <<FMix, FPoison, FLast2, FFlag, FOpt>>
+\* zero-width elements: the fold counts them (the element carries no bit, so only the NUMBER of applications shows)
+FCount == IFn("count", <<Param("e", TUnit), Param("acc", T8)>>, <<T8>>,
+              BlkE(<<SLet(PTup(<<PIgn, PId("s")>>), TTup(<<TBool, T8>>), JetE("increment_8", <<V("acc")>>))>>, V("s")))
+\* a fold inside a fold function: every element is itself a list (a row), folded with `mix` into the running accumulator
+TRow == TList(T8, 4)
+FRows == IFn("rows", <<Param("e", TRow), Param("acc", T8)>>, <<T8>>,
+             BlkE(<<>>, ECall(CFn("mix"), <<Dec(9), ECall(CFold("mix", 4), <<V("e"), V("acc")>>)>>)))
+Defs == <<FMix, FPoison, FLast2, FFlag, FOpt, FCount, FRows>>
 
 Bounds == IF Thorough THEN {2, 4, 8, 16, 32, 64, 128, 256, 512} ELSE {2, 4, 8, 16, 32, 64, 128, 256}
 FullLen == IF Thorough THEN 64 ELSE 16
@@ -55,13 +62,19 @@ Kinds == {[f |-> "mix", te |-> T8, ta |-> T8, init |-> Dec(1)],
           [f |-> "poison", te |-> T8, ta |-> T8, init |-> Dec(1)],
           [f |-> "last2", te |-> T8, ta |-> TPair8, init |-> ETuple(<<Dec(250), Dec(251)>>)],
           [f |-> "flagged", te |-> TFlag, ta |-> T8, init |-> Dec(2)],
-          [f |-> "opts", te |-> TO2, ta |-> T8, init |-> Dec(0)]}
+          [f |-> "opts", te |-> TO2, ta |-> T8, init |-> Dec(0)],
+          [f |-> "count", te |-> TUnit, ta |-> T8, init |-> Dec(0)],
+          [f |-> "rows", te |-> TRow, ta |-> T8, init |-> Dec(1)]}
+NarrowKinds == {"count", "rows"}     \* kinds checked at the small bounds only
 ElemOf(kd, i) == CASE kd.te = T8 -> (IF kd.f = "poison" /\ i = 5 THEN U8(200) ELSE Elem8(i))
                    [] kd.te = TFlag -> ElemFlag(i)
                    [] kd.te = TO2 -> (IF kd.f = "opts" /\ i = 9 THEN VSome(VU(<<1, 1>>)) ELSE ElemOpt(i))
+                   [] kd.te = TUnit -> VUnit
+                   [] kd.te = TRow -> VList([j \in 1..(i % 4) |-> U8(13 * i + 5 * j + 1)])
 ListOfLen(kd, n) == VList([i \in 1..n |-> ElemOf(kd, i)])
 
-FoldFamilies == {[kind |-> "wit", kd |-> kd, b |-> b] : kd \in Kinds, b \in Bounds}
+FoldFamilies == {[kind |-> "wit", kd |-> kd, b |-> b] : kd \in {k2 \in Kinds : k2.f \notin NarrowKinds}, b \in Bounds}
+                \cup {[kind |-> "wit", kd |-> kd, b |-> b] : kd \in {k2 \in Kinds : k2.f \in NarrowKinds}, b \in {2, 4, 8, 16}}
                 \cup {[kind |-> "pair", kd |-> kd, b |-> b] : kd \in {k2 \in Kinds : k2.f \in {"mix", "last2", "flagged"}}, b \in {4, 8, 16}}
                 \cup {[kind |-> "lit", kd |-> kd, b |-> b] : kd \in {k2 \in Kinds : k2.f \in {"mix", "last2"}}, b \in {2, 4, 8, 16}}
 
